@@ -49,15 +49,19 @@ CLAIMS = {
             'build_function_prelude (regenerated): r1 = metadata pointer if that buffer is non-empty else the packet pointer, r10 = end of the 512-byte slot = upper bound of the '
             'bounds-check stack region, nothing else but r2. C09_jit_prologue_*: the prologue emitted for each of the three VM-kind variants (regenerated; stack machine '
             'X86Stk.v): rdi = packet or metadata pointer, r10 = packet pointer, rbp = rsp after the five saves with rsp 520 bytes lower, and for the fixed kind the words at '
-            'metadata + offsets hold packet start and end. All 4 VM kinds x 3 engines are '
+            'metadata + offsets hold packet start and end. C09_r1_every_kind_every_engine / C09_fixed_metadata_words / C09_fixed_jit_words: the arguments each VM kind\'s '
+            'execute_program / _jit / _cranelift hands to its engine and the stores into the fixed metadata buffer, regenerated from lib.rs, give r1 = metadata buffer '
+            '(metadata VMs), packet or 0 (raw VM), 0 (no-data VM) under all three engines, and packet start / end at the two offsets on every execution. All 4 VM kinds x 3 engines are '
             'probed against values derived from the buffer layout, incl. the two words of the fixed metadata buffer for 8 offset pairs, 6 packet lengths '
             'and successive executions.',
-            'lib.rs wrappers (which pointers and lengths reach the engines) exercised differentially, not modelled.'),
+            'how the engines\' entry code uses those arguments at run time is exercised differentially.'),
     'C10': ('proof', 'Theorem C10_refinement: the implementation state machine of the VM API (theories/VmApi.v, hand-written from lib.rs) answers every finite '
             'history of calls exactly as the abstract VM in which compiled code is a function of the loaded program; corollaries: a failed set_program/'
-            'set_verifier is a no-op, the loaded program was accepted by the verifier in force, executions are pure. The model is tied to the code by '
-            'the history correspondence: every history of length <= 2 over a 16-op alphabet from 4 initial programs, plus random histories on all 4 VM kinds.',
-            'lib.rs is hand-modelled: the tie is the correspondence (tie B) only; programs/verifiers abstract in the theorem.'),
+            'set_verifier is a no-op, the loaded program was accepted by the verifier in force, executions are pure. Theorem C10_model_is_the_code: the effect '
+            'lists of set_program, set_verifier, register_helper, set_stack_usage_calculator, jit_compile and cranelift_compile, regenerated from lib.rs on every run '
+            '(the other VM kinds must delegate or repeat them), executed in program order with early return at the first failing step, equal that state machine. '
+            'It is also compared with the real VMs: every history of length <= 2 over a 16-op alphabet from 4 initial programs, plus random histories on all 4 VM kinds.',
+            'programs / verifiers / compilers abstract in the theorem; stack-usage validation assumed to succeed in the model; execute_* by correspondence.'),
     'C18': ('proof', 'PARTIAL. Theorem C18_atomic_sum: for every number of threads, addends and interleaving, indivisible adds leave init + sum (mod 2^w) -- no '
             'update lost; C18_split_rmw_loses: a load/store pair loses updates (the property discriminates); C18_engines_use_atomic_rmw: regenerated from '
             'the three sources, every engine\'s XADD arm uses fetch_add / lock add / atomic_rmw add; the single-thread effect and the alignment error are the '
@@ -68,8 +72,10 @@ CLAIMS = {
             'strcmp zero-iff on byte-string models. PARTIAL for sqrti: modelled with Flocq binary64 and compared on a grid with the code and with Z.sqrt below '
             '2^52; the exactness statement is not proved.',
             'Flocq\'s development depends on the standard-library axioms sig_forall_dec, sig_not_dec, functional_extensionality_dep, classic (sqrti sample evaluation only).'),
-    'C20': ('other', 'No Coq theorem of its own: the models of C01/C02/C05/C06/C17 are regenerated from source regions checked on every run to contain no code '
-            'selected by the std feature, so their theorems describe both builds; the cfg-dependent glue is compared by running a default build and a '
+    'C20': ('proof', 'PARTIAL. Theorems C20_jit_memory_size / C20_no_std_memory_refusal / C20_no_std_accepts_what_std_allocates / C20_jit_flags_agree over both cfg twins of '
+            'JitMemory::new and of every jit_compile (regenerated): same buffer size, same passes, the no_std build refuses caller memory exactly when too short or not '
+            'page-aligned, every VM kind compiles with the same prologue flags in both builds. The models of C01/C02/C05/C06/C17 are regenerated from source regions checked on every run to contain no code '
+            'selected by the std feature, so their theorems describe both builds; the rest of the cfg-dependent glue is compared by running a default build and a '
             '--no-default-features build of the harness on the corpora of C01/C03/C06/C13-C15 (JIT from caller-supplied executable memory) and requiring '
             'identical transcripts.',
             'Helpers that exist only with std are outside the comparison.'),
